@@ -207,7 +207,7 @@ def raw_values(rnd, ty, n):
     return vals, [struct.pack("<" + fmt, v) for v in vals]
 
 
-def one_channel_file(ty, chunks_vals, chan_props, group_props, root_props, nseg=1, big=False, order="rgc"):
+def one_channel_file(ty, chunks_vals, chan_props, group_props, root_props, nseg=1, big=False, order="rgc", interleaved=False):
     """file encoding with a root, a group and one channel; chunks_vals: list (per segment) of list of packed values.
     order: "rgc" root, group, channel (what writers produce); "cgr" the channel is listed BEFORE its group and the root;
     "late" the group and root objects only appear in the last segment (after the channel's first data)."""
@@ -221,6 +221,6 @@ def one_channel_file(ty, chunks_vals, chan_props, group_props, root_props, nseg=
         objs.append(dict(path=pc, idx=("F", ty, len(vals), 0), props=chan_props if si == 0 else []))
         if (order == "cgr" and si == 0) or (order == "late" and si == len(chunks_vals) - 1):
             objs += parents[::-1]
-        segs.append(dict(hasMeta=True, newList=True, interleaved=False, big=big, rawFlag=True, daqmxFlag=False, lengthUnknown=False, version=4713,
+        segs.append(dict(hasMeta=True, newList=True, interleaved=interleaved, big=big, rawFlag=True, daqmxFlag=False, lengthUnknown=False, version=4713,
                          padding=0, objs=objs, chunks=[[vals]] if vals else []))
     return segs
